@@ -155,15 +155,15 @@ theorem edgeChain_snoc (g : DGraph) (e : DEdge) (he : e ∈ g.edges) : ∀ (es :
   | nil => intro a h; simp only [EdgeChain] at h; exact ⟨he, h.symm, rfl⟩
   | cons x xs ih => intro a h; exact ⟨h.1, h.2.1, ih x.dst h.2.2⟩
 
-/-- the links of one hop as the code emits them -/
-def hopLinks (l : List Lk) : List Lk := if fixedHopOrder then l else l.reverse
+/-- the links of one hop as variant `V` of the code emits them -/
+def hopLinks (V : DVar) (l : List Lk) : List Lk := if V.hop then l else l.reverse
 
-/-- **Dijkstra: whatever the route composition returns is made of the graph's edges, forming a chain from src to
-dst, hop after hop in order** — for every graph, every predecessor array (even a corrupted one), every fuel.
-On the current code each hop's links come out *reversed* (`hopLinks`), see the counterexample below. -/
-theorem dijkstra_path_valid (g : DGraph) (pred : List Nat) (src : Nat) : ∀ (f v : Nat) (acc r : List Lk),
-    dijkstraWalk g pred src f v acc = .ok r →
-    ∃ es, EdgeChain g src es v ∧ r = es.flatMap (fun e => hopLinks e.links) ++ acc := by
+/-- whatever the route composition returns is made of the graph's edges, forming a chain from src to dst, hop after
+hop in order — for both variants of the code, every graph, every predecessor array (even a corrupted one), every
+fuel, every accumulated suffix.  Each hop's links come out as `hopLinks V` (reversed before the fix). -/
+theorem dijkstraWalk_chain (V : DVar) (g : DGraph) (pred : List Nat) (src : Nat) : ∀ (f v : Nat) (acc r : List Lk),
+    dijkstraWalk V g pred src f v acc = .ok r →
+    ∃ es, EdgeChain g src es v ∧ r = es.flatMap (fun e => hopLinks V e.links) ++ acc := by
   intro f
   induction f with
   | zero => intro v acc r h; simp [dijkstraWalk] at h
@@ -188,14 +188,77 @@ theorem dijkstra_path_valid (g : DGraph) (pred : List Nat) (src : Nat) : ∀ (f 
           rw [hprop.2] at this; exact this
         · rw [hr]; simp [insertFront, hopLinks]
 
-/-- when no hop has two different links in a row (e.g. single-link routes) the result is the concatenation of the
-declared link lists: the property's "chain of declared routes" — **partial**: the general statement is false on the
-current code -/
-theorem dijkstra_path_valid_partial (g : DGraph) (pred : List Nat) (src : Nat) (f v : Nat) (r : List Lk)
+/-- **Dijkstra, full strength for the composition: a returned route is the concatenation of the *declared* link
+lists (each in the order it was declared) along a chain of graph edges from src to dst** — for every graph, every
+predecessor array (even a corrupted one), every fuel.  (Before the fix `dijkstra-multilink-hop-reversed` this held
+only for graphs whose hops are palindromes: `dijkstra_path_valid_prefix_partial`.) -/
+theorem dijkstra_path_valid (g : DGraph) (pred : List Nat) (src : Nat) (f v : Nat) (acc r : List Lk)
+    (h : dijkstraWalk DVar.now g pred src f v acc = .ok r) :
+    ∃ es, EdgeChain g src es v ∧ r = es.flatMap (fun e => e.links) ++ acc := by
+  obtain ⟨es, hc, hr⟩ := dijkstraWalk_chain DVar.now g pred src f v acc r h
+  exact ⟨es, hc, by simpa [hopLinks, DVar.now, fixedHopOrder] using hr⟩
+
+/-- the same at the level of `DijkstraZone::get_local_route` (node lookup, self edge when src = dst, Dijkstra's
+loop, composition): **every route returned between two netpoints is a chain of declared one-hop routes between their
+graph nodes, links in declared order** — every graph, every fuel. -/
+theorem dijkstra_route_is_chain (g : DGraph) (fuel srcId dstId : Nat) (r : List Lk)
+    (h : dijkstraRoute g fuel srcId dstId = .ok r) :
+    ∃ s d es, g.nodeIdx srcId = some s ∧ g.nodeIdx dstId = some d ∧ EdgeChain g s es d ∧
+      r = es.flatMap (fun e => e.links) := by
+  unfold dijkstraRoute dijkstraRouteV at h
+  split at h
+  · rename_i s d hs hd
+    refine ⟨s, d, ?_⟩
+    by_cases hsd : s = d
+    · subst hsd
+      simp only [if_true] at h
+      cases he : g.findEdge s s with
+      | none => simp [he] at h
+      | some e =>
+        simp only [he] at h
+        cases hp : dijkstraPreds DVar.now g fuel s with
+        | none => simp [hp] at h
+        | some pred =>
+          simp only [hp] at h
+          -- the walk starts at v = src: it returns the accumulated self edge at once
+          unfold dijkstraWalk at h
+          simp only [if_true, Except.ok.injEq] at h
+          have hmem : e ∈ g.edges := List.mem_of_find?_eq_some he
+          have hprop := List.find?_some he
+          simp only [decide_eq_true_eq] at hprop
+          refine ⟨[e], hs, hd, ⟨hmem, hprop.1, hprop.2⟩, ?_⟩
+          rw [← h]; simp [insertFront, DVar.now, fixedHopOrder]
+    · simp only [hsd, if_false] at h
+      cases hp : dijkstraPreds DVar.now g fuel s with
+      | none => simp [hp] at h
+      | some pred =>
+        simp only [hp] at h
+        obtain ⟨es, hc, hr⟩ := dijkstra_path_valid g pred s _ d [] r h
+        exact ⟨es, hs, hd, hc, by simpa using hr⟩
+  · cases h
+
+/-- **an unreachable destination never gets a route**: when no chain of graph edges leads from src to dst, the
+answer is an error (the check's monitor and the correspondence tie it to the "No route" exception of the library; before
+the fix `dijkstra-unreachable-node-wraps` the library did not answer at all) -/
+theorem dijkstra_unreachable_no_route (g : DGraph) (fuel srcId dstId s d : Nat)
+    (hs : g.nodeIdx srcId = some s) (hd : g.nodeIdx dstId = some d)
+    (hno : ∀ es, ¬ EdgeChain g s es d) : ∃ e, dijkstraRoute g fuel srcId dstId = .error e := by
+  cases h : dijkstraRoute g fuel srcId dstId with
+  | error e => exact ⟨e, rfl⟩
+  | ok r =>
+    obtain ⟨s', d', es, hs', hd', hc, _⟩ := dijkstra_route_is_chain g fuel srcId dstId r h
+    rw [hs] at hs'; rw [hd] at hd'
+    cases hs'; cases hd'
+    exact absurd hc (hno es)
+
+/-- regression, the statement as it stood before the fix `dijkstra-multilink-hop-reversed`: on the pre-fix variant
+the result is the concatenation of the declared link lists only when no hop has two different links in a row
+(e.g. single-link routes) -/
+theorem dijkstra_path_valid_prefix_partial (g : DGraph) (pred : List Nat) (src : Nat) (f v : Nat) (r : List Lk)
     (hp : ∀ e ∈ g.edges, e.links.reverse = e.links)
-    (h : dijkstraWalk g pred src f v [] = .ok r) :
+    (h : dijkstraWalk DVar.old g pred src f v [] = .ok r) :
     ∃ es, EdgeChain g src es v ∧ r = es.flatMap (fun e => e.links) := by
-  obtain ⟨es, hc, hr⟩ := dijkstra_path_valid g pred src f v [] r h
+  obtain ⟨es, hc, hr⟩ := dijkstraWalk_chain DVar.old g pred src f v [] r h
   refine ⟨es, hc, ?_⟩
   rw [hr, List.append_nil]
   have hall : ∀ (es : List DEdge) (a : Nat), EdgeChain g a es v → ∀ e ∈ es, e ∈ g.edges := by
@@ -215,27 +278,32 @@ theorem dijkstra_path_valid_partial (g : DGraph) (pred : List Nat) (src : Nat) (
     simp only [List.flatMap_cons]
     rw [ih (fun e he => hm e (by simp [he]))]
     congr 1
-    simp only [hopLinks]
-    split
-    · rfl
-    · exact hp x (hm x (by simp))
+    simp only [hopLinks, DVar.old]
+    exact hp x (hm x (by simp))
 
 /-
-FULL-STRENGTH STATEMENTS for Dijkstra (both false on the current code):
-  (1) a returned route is the concatenation of the *declared* link lists along a chain        — false: see (D16)
-  (2) a route is returned whenever a chain of declared routes exists, with minimal link count — false: see (D15)
-Minimality of Dijkstra's answer when it does answer is checked by correspondence only (equal link count with the
-Floyd model / the Bellman–Ford spec on the same graph), not proved.
+FULL-STRENGTH STATEMENTS for Dijkstra:
+  (1) a returned route is the concatenation of the *declared* link lists along a chain — `dijkstra_path_valid`,
+      `dijkstra_route_is_chain` (proved; false before the fix of D16)
+  (2) a route is returned whenever a chain of declared routes exists, with minimal link count — NOT proved (false
+      before the fix of D15, see the regression witness; still false for src = dst when a declared self route is
+      longer than a cycle through a neighbour: `dijkstra_self_route_not_minimal_counterexample`).  Proved part: no
+      chain ⇒ no route
+      (`dijkstra_unreachable_no_route`).  The converse and the minimality of Dijkstra's answer are checked by
+      correspondence only (route returned ⇔ a chain exists, equal link count with the Floyd model / the Bellman–Ford
+      spec on the same graph), as planned in DESIGN §8.
 -/
 
 /-- the sealed graph of: route 0→1 with links [1, 2] (one-way) -/
 def g16 : DGraph := dijkstraSeal ((dijkstraAddRoute { nodes := [], edges := [] } 0 1 [1, 2] false).getD { nodes := [], edges := [] })
 
-/-- **(D16) counterexample**: a declared two-link route `1 2` is returned as `2 1` by a Dijkstra zone
-(`insert_link_latency` inserts `rbegin..rend`).  Replayed on the library: key `dijkstra-multilink-hop-reversed`. -/
-theorem dijkstra_multilink_hop_reversed_counterexample :
-    (g16.findEdge 0 1).map (·.links) = some [1, 2] ∧ dijkstraRoute g16 100 0 1 = .ok [2, 1] := by
-  constructor <;> decide
+/-- **(D16) regression witness of the fixed defect `dijkstra-multilink-hop-reversed`**: before the fix a declared
+two-link route `1 2` was returned as `2 1` by a Dijkstra zone (`insert_link_latency` inserted `rbegin..rend`); the
+code as it is now returns `1 2`.  Corpus case `d16` replays it on the library. -/
+theorem dijkstra_multilink_hop_reversed_prefix_witness :
+    (g16.findEdge 0 1).map (·.links) = some [1, 2] ∧ dijkstraRouteV DVar.old g16 100 0 1 = .ok [2, 1] ∧
+    dijkstraRoute g16 100 0 1 = .ok [1, 2] := by
+  refine ⟨?_, ?_, ?_⟩ <;> decide
 
 /-- the sealed graph of: s=0 → u=1 (link 1, one-way), x=2 → u=1 (link 2, one-way) -/
 def g15 : DGraph :=
@@ -246,13 +314,43 @@ def g15 : DGraph :=
 def f15 : FloydSt :=
   floydSeal 3 (((floydAddRoute FloydSt.init 0 1 [1] false).bind (fun s => floydAddRoute s 2 1 [2] false)).getD FloydSt.init)
 
-/-- **(D15) counterexample**: with one-way routes, a node that cannot be reached from the source is popped with cost
-ULONG_MAX; `cost_v_u + ULONG_MAX` wraps to `cost_v_u - 1`, which beats the cost of a reachable neighbour and overwrites
-its predecessor.  s→u is declared (Floyd answers `1`), Dijkstra's predecessor walk never reaches s (the library spins
-in the composition loop until memory is exhausted).  Key `dijkstra-unreachable-node-wraps`. -/
-theorem dijkstra_unreachable_wrap_counterexample :
-    floydRoute 3 f15 0 1 = .ok [1] ∧ dijkstraRoute g15 100 0 1 = .error .loops := by
-  constructor <;> decide
+/-- **(D15) regression witness of the fixed defect `dijkstra-unreachable-node-wraps`**: with one-way routes, a node
+that cannot be reached from the source was popped with cost ULONG_MAX; `cost_v_u + ULONG_MAX` wrapped to
+`cost_v_u - 1`, which beat the cost of a reachable neighbour and overwrote its predecessor.  s→u is declared (Floyd
+answers `1`); before the fix Dijkstra's predecessor walk never reached s (the library span in the composition loop
+until memory was exhausted).  The code as it is now answers `1`, and "No route" for the unreachable destinations
+s→x and u→s, like Floyd.  Corpus case `d15` replays it on the library. -/
+theorem dijkstra_unreachable_wrap_prefix_witness :
+    floydRoute 3 f15 0 1 = .ok [1] ∧ dijkstraRouteV DVar.old g15 100 0 1 = .error .loops ∧
+    dijkstraRoute g15 100 0 1 = .ok [1] ∧
+    dijkstraRoute g15 100 0 2 = .error .noRoute ∧ floydRoute 3 f15 0 2 = .error .noRoute ∧
+    dijkstraRoute g15 100 1 0 = .error .noRoute ∧ floydRoute 3 f15 1 0 = .error .noRoute := by
+  refine ⟨?_, ?_, ?_, ?_, ?_, ?_, ?_⟩ <;> decide
+
+/-- the sealed graph of: 0 ↔ 1 (link 1, symmetrical) and a declared self route 1 → 1 of three links [2, 3, 4] -/
+def gSelf : DGraph :=
+  dijkstraSeal (((dijkstraAddRoute { nodes := [], edges := [] } 0 1 [1] true).bind
+    (fun g => dijkstraAddRoute g 1 1 [2, 3, 4] false)).getD { nodes := [], edges := [] })
+
+def fSelf : FloydSt :=
+  floydSeal 2 (((floydAddRoute FloydSt.init 0 1 [1] true).bind (fun s => floydAddRoute s 1 1 [2, 3, 4] false)).getD FloydSt.init)
+
+/-- **counterexample to "minimal link count / equal link counts" for src = dst** (on the current code; key
+`self-route-longer-than-cycle`, not fixed: which of the two answers is meant is a design decision).  A declared self
+route longer than a cycle through a neighbour: Floyd's triple loop replaces it by the cycle there and back (`1 1`, 2
+links), `DijkstraZone::get_local_route` returns the declared self edge (`2 3 4`, 3 links) without looking further.
+Until the fix of D16 this was hidden behind the reversed hop (`4 3 2`). -/
+theorem dijkstra_self_route_not_minimal_counterexample :
+    floydRoute 2 fSelf 1 1 = .ok [1, 1] ∧ dijkstraRoute gSelf 100 1 1 = .ok [2, 3, 4] ∧
+    (minCosts 2 (fun p q => (gSelf.findEdge p q).map (·.links.length)) 1).getD 1 none = some 2 := by
+  refine ⟨?_, ?_, ?_⟩ <;> decide
+
+/-- non-vacuity of `dijkstra_route_is_chain`: a two-hop route through multi-link hops, each hop in declared order
+(0 →[3,4] 1 →[1,2] 2, symmetrical: back `2 1 4 3`) -/
+example : ∃ g, ((dijkstraAddRoute { nodes := [], edges := [] } 0 1 [3, 4] true).bind
+      (fun g => dijkstraAddRoute g 1 2 [1, 2] true)).map dijkstraSeal = some g ∧
+    dijkstraRoute g 100 0 2 = .ok [3, 4, 1, 2] ∧ dijkstraRoute g 100 2 0 = .ok [2, 1, 4, 3] ∧
+    dijkstraRoute g 100 1 1 = .ok [0] := ⟨_, rfl, by decide, by decide, by decide⟩
 
 /-- non-vacuity of `floyd_minimal` / `floyd_path_valid`: 0 →[1,2] 1 →[3] 2 and a direct 0 →[4,5,6,7] 2: the two-hop
 chain (3 links) beats the direct route (4 links) -/
